@@ -1369,6 +1369,9 @@ void knobs_for(const std::string &prop, Knobs &K, Rng &r)
                 K.max_cmds = 4;
                 K.p_events = 0.8;
         } else if (prop == "C11" || prop == "C12") {
+                if (prop == "C12")
+                        K.p_ev_release = 0.0; // a release by an event handler races with the hold it releases: its effect
+                                              // legitimately depends on the relative progress of the two state machines
                 K.p_events = 0.95;
                 K.p_faults = 0.95;
                 K.p_handler = 0.7;
